@@ -308,3 +308,5 @@ SUBCHECKS = [
     SubCheck("legacy_closure", o_closure, strategy=s_closure, budget=(2500, 200000), nontrivial=nt,
              rule="the sighash function handed to the VM (BTC/LTC/GRS): script sliced at a generated code-separator position, generated signature blobs (pushes present in the script, in any encoding, and absent ones) removed as consensus FindAndDelete does, digest equals the reference; non-trivial as above or a blob was actually removed"),
 ]
+
+FUZZ = {"legacy_closure": 20000, "checker_history": 20000}
